@@ -118,6 +118,15 @@ class Sym:
     def __repr__(self):
         return '%s(%s)' % (type(self).__name__, self.z)
 
+    def __format__(self, spec):
+        """Formatting a proxy yields a text *hole*: a token remembering (term, format spec),
+        which an oracle reads back from the generated text (engine().fmt_tokens)."""
+        eng = engine()
+        toks = eng.__dict__.setdefault('fmt_tokens', {})
+        tok = '<num:%d>' % len(toks)
+        toks[tok] = (self, spec)
+        return tok
+
 
 def wrap(z):
     """Wrap a z3 term into the right proxy, collapsing literals."""
